@@ -1,0 +1,25 @@
+//go:build verif
+
+package rsec16
+
+import "github.com/akalin/gopar/gf2p16"
+
+// Hooks for the verification harness in /verif (build tag verif only).
+
+// VerifParallelParams exposes calculateParallelParams.
+func VerifParallelParams(totalLength, numGoroutines, minPerGoroutineLength, perGoroutineLengthDivisor int) (int, int) {
+	return calculateParallelParams(totalLength, numGoroutines, minPerGoroutineLength, perGoroutineLengthDivisor)
+}
+
+// VerifApplyMatrixSingle exposes applyMatrixSingle.
+func VerifApplyMatrixSingle(m gf2p16.Matrix, in, out [][]byte) { applyMatrixSingle(m, in, out) }
+
+// VerifApplyMatrixParallelData exposes applyMatrixParallelData.
+func VerifApplyMatrixParallelData(m gf2p16.Matrix, in, out [][]byte, numGoroutines int) {
+	applyMatrixParallelData(m, in, out, numGoroutines)
+}
+
+// VerifApplyMatrixParallelOut exposes applyMatrixParallelOut.
+func VerifApplyMatrixParallelOut(m gf2p16.Matrix, in, out [][]byte, numGoroutines int) {
+	applyMatrixParallelOut(m, in, out, numGoroutines)
+}
